@@ -233,7 +233,7 @@ def expandTrait (v : Variant) (attrToks : Toks) (t : TraitItem) : Outcome :=
           let traitDef := genTraitDef attr.opts .trait .generic t.attrs t.vis t.ident tg sup fns .rawTrait
           let implBlock : GenImpl :=
             { attrs := implSubAttrs
-              params := implTParam false :: tg.params
+              params := implParams .generic false tg.params
               traitRef := [i t.ident] ++ genericArgs .none tg.params
               selfTy := implPathToks
               preds := .ty [] entraitTTy (traitImplTBounds attr containsAsync t.ident tg) false :: tg.preds
